@@ -48,15 +48,16 @@ def local_names(fn):
         if isinstance(n, (ast.Global, ast.Nonlocal)):
             glob |= set(n.names)
     stored = set()
-    nested = False
+    nested_names = set()
     for n in ast.walk(fn):
         if n is not fn and isinstance(n, (ast.FunctionDef, ast.AsyncFunctionDef, ast.Lambda, ast.ClassDef)):
-            nested = True
+            # names touched by a nested scope are left alone (a naive rename across closures is unsafe)
+            nested_names |= {x.id for x in ast.walk(n) if isinstance(x, ast.Name)} | {a.arg for x in ast.walk(n) if isinstance(x, ast.arguments) for a in x.args}
+            if hasattr(n, "name"):
+                nested_names.add(n.name)
         if isinstance(n, ast.Name) and isinstance(n.ctx, ast.Store):
             stored.add(n.id)
-    if nested:
-        return []       # closures make a naive rename unsafe
-    return sorted(stored - params - glob)
+    return sorted(stored - params - glob - nested_names)
 
 
 class Rename(ast.NodeTransformer):
